@@ -217,7 +217,7 @@ def verify_result(result_id, result_enc, keys, ext_aad, payload, extra_unprot=No
 def ecdsa_verify(alg, cert_der, data, raw_sig):
     ''' COSE ECDSA: signature is r || s; the key is the subject key of the end-entity certificate. '''
     from cryptography import x509
-    from cryptography.exceptions import InvalidSignature
+    from cryptography.exceptions import InvalidSignature, UnsupportedAlgorithm
     from cryptography.hazmat.primitives import hashes
     from cryptography.hazmat.primitives.asymmetric import ec, utils
     try:
@@ -229,7 +229,7 @@ def ecdsa_verify(alg, cert_der, data, raw_sig):
         der_sig = utils.encode_dss_signature(int.from_bytes(raw_sig[:half], 'big'), int.from_bytes(raw_sig[half:], 'big'))
         pub.verify(der_sig, data, ec.ECDSA(getattr(hashes, ECDSA_ALGS[alg].upper())()))
         return True
-    except (InvalidSignature, ValueError, TypeError):
+    except (InvalidSignature, ValueError, TypeError, UnsupportedAlgorithm, AttributeError):
         return False
 
 
